@@ -371,7 +371,7 @@ func check(c *enum.Ctx, k kase) bool {
 }
 
 func run(c *enum.Ctx) {
-	c.Rule("complete: 7 built-in alphabets x all 256 letters (validity, index, letter, complement method/table; the table kept while other alphabets' tables are asked for; again after sequences holding every byte value were reverse-complemented over the alphabet) and every letter slice of length <=3 over {valid lower, valid upper, invalid, 0xFF} and every slice of length 4..19, 63..66, 258, 259 and 2^k-1, 2^k, 2^k+1 (also 3*2^k, 10^j-1, 10^j, 10^j+1, 5*10^j) (127..1025) of valid letters with zero, one or two invalid letters at every position; bounded-exhaustive: every alphabet definition of length 1..4 over {a,B,c,-,*} without case-duplicates, cased and uncased, and every case-sensitive definition of length 1..4 over {a,A,B,b,c} that holds a letter in both cases; a case-insensitive alphabet and the case-sensitive one with the same expanded letters built in turn, in either order; every pair of strings of length <=3 over {a,c,g,t} (plus mismatched lengths and a non-ASCII rune at every position) as a pairing definition, with a complementor over every alphabet it is closed over, cased and uncased, the uncased ones also spelt in upper and mixed case (also with a Pairing value that served a case-insensitive complementor first), and a case-insensitive complementor over the pairing spelt in one case only (method and table must agree on all 256 letters); distinct = distinct case descriptors; non-trivial = cases where a constructor succeeded or a built-in was queried")
+	c.Rule("complete: 7 built-in alphabets x all 256 letters (validity, index, letter, complement method/table; the table kept while other alphabets' tables are asked for; again after sequences holding every byte value were reverse-complemented over the alphabet) and every letter slice of length <=3 over {valid lower, valid upper, invalid, 0xFF} and every slice of length 4..19, 63..66, 258, 259 and 2^k-1, 2^k, 2^k+1 (also 3*2^k, 10^j-1, 10^j, 10^j+1, 5*10^j) (127..1025) of valid letters with zero, one or two invalid letters at every position; bounded-exhaustive: every alphabet definition of length 1..4 over {a,B,c,-,*} without case-duplicates, cased and uncased, every case-sensitive definition of length 1..4 over {a,A,B,b,c} that holds a letter in both cases, and every non-letter ASCII byte 0x21..0x7f as a letter of a definition (alone, after 'a', before 'Z'), both case modes; a case-insensitive alphabet and the case-sensitive one with the same expanded letters built in turn, in either order; every pair of strings of length <=3 over {a,c,g,t} (plus mismatched lengths and a non-ASCII rune at every position) as a pairing definition, with a complementor over every alphabet it is closed over, cased and uncased, the uncased ones also spelt in upper and mixed case (also with a Pairing value that served a case-insensitive complementor first), and a case-insensitive complementor over the pairing spelt in one case only (method and table must agree on all 256 letters); distinct = distinct case descriptors; non-trivial = cases where a constructor succeeded or a built-in was queried")
 	c.Assume("reference definitions of the built-in alphabets are restated in the harness from the package documentation")
 	n := 0
 	do := func(k kase) {
@@ -442,6 +442,18 @@ func run(c *enum.Ctx) {
 			}
 		}
 	})
+	// every other ASCII byte as a letter of a definition (punctuation above 'z' and below 'A', digits, DEL),
+	// alone and next to an ordinary letter, case-insensitive and case-sensitive
+	for b := 0x21; b <= 0x7f; b++ {
+		if isUpper(byte(b)) || isLower(byte(b)) {
+			continue
+		}
+		for _, d := range []string{string([]byte{byte(b)}), string([]byte{'a', byte(b)}), string([]byte{byte(b), 'Z'})} {
+			for _, cased := range []bool{false, true} {
+				do(kase{Kind: "new-alphabet", Def: d, Cased: cased, Gap: byte(0x20)})
+			}
+		}
+	}
 	// case-sensitive alphabets that hold a letter in both cases (distinct letters there): every
 	// definition of length 1..4 over {a,A,B,b,c} of distinct bytes
 	enum.Strings("aABbc", 1, defMax, func(d []byte) {
